@@ -244,7 +244,7 @@ def run(ctx):
             stmt, three, nsample = 3, 1, 80
         else:
             chosen = [s for i, s in enumerate(sets) if i % ctx.nshards == ctx.shard]
-            stmt, three, nsample = 6, 6, 200
+            stmt, three, nsample = 4, 4, 200
         for sessions in chosen:
             explore(ctx, model, sp, sessions, ('set', sets.index(sessions)), stmt)
             ctx.count('program_sets')
